@@ -1,6 +1,9 @@
 """Sidecar contracts (PATH obligations): run/map lifecycle templates (C08, C10, C11, C12, C14, C16)."""
 # ruff: noqa
-import z3
+try:
+    import z3
+except ImportError:
+    z3 = None
 from pyvc.values import ANY, STR, INT, BOOL, NONE_T, SEQ, DICT, SET, OBJ, OPT, FIXTUP
 from contracts.tracelib import before_effects, bracket, calls, names, raised_by, _nm
 
